@@ -197,6 +197,8 @@ pub fn lines() -> Vec<(&'static str, Vec<T>)> {
         l("time", "T:11:30 K:to Z:EST"),
         l("time", "T:11:30 O:+ N:1 W:hour N:30 W:minutes"),
         l("time", "T:3:35 W:am O:+ N:7 W:hours N:15 W:minutes"),
+        l("time", "T:11:30 W:pm O:+ N:1 W:hour"),
+        l("time", "T:1:20:30 W:pm K:to Z:CET"),
         l("time", "T:10:00 K:to T:13:45"),
         // bases and unix time
         l("base", "N:255 K:to W:hex"),
